@@ -4,7 +4,7 @@ from rtamt.semantics.iastl.dense_time.offline.interpreter import IAStlOutputRobu
 from rtamt.semantics.iastl.dense_time.online.interpreter import IAStlOutputRobustnessDenseTimeOnlineInterpreter, \
     IAStlInputRobustnessDenseTimeOnlineInterpreter, IAStlOutputVacuityDenseTimeOnlineInterpreter, \
     IAStlInputVacuityDenseTimeOnlineInterpreter
-from rtamt.pastifier.stl.pastifier import StlPastifier
+from rtamt.pastifier.stl.pastifier import StlDenseTimePastifier
 from rtamt.spec.abstract_specification import AbstractOfflineSpecification, AbstractOnlineSpecification, AbstractOfflineOnlineSpecification
 
 from rtamt.syntax.ast.parser.stl.specification_parser import StlAst
@@ -23,19 +23,19 @@ def StlDenseTimeSpecification(semantics=Semantics.STANDARD, language=Language.PY
     Attributes:
     """
     if semantics == Semantics.STANDARD and language == Language.PYTHON:
-        spec = AbstractOfflineOnlineSpecification(StlAst(), StlDenseTimeOfflineInterpreter(), StlDenseTimeOnlineInterpreter(), pastifier=StlPastifier())
+        spec = AbstractOfflineOnlineSpecification(StlAst(), StlDenseTimeOfflineInterpreter(), StlDenseTimeOnlineInterpreter(), pastifier=StlDenseTimePastifier())
     elif semantics == Semantics.OUTPUT_ROBUSTNESS and language == Language.PYTHON:
         spec = AbstractOfflineOnlineSpecification(StlAst(), IAStlOutputRobustnessDenseTimeOfflineInterpreter(),
-                                                  IAStlOutputRobustnessDenseTimeOnlineInterpreter(), pastifier=StlPastifier())
+                                                  IAStlOutputRobustnessDenseTimeOnlineInterpreter(), pastifier=StlDenseTimePastifier())
     elif semantics == Semantics.INPUT_ROBUSTNESS and language == Language.PYTHON:
         spec = AbstractOfflineOnlineSpecification(StlAst(), IAStlInputRobustnessDenseTimeOfflineInterpreter(),
-                                                  IAStlInputRobustnessDenseTimeOnlineInterpreter(), pastifier=StlPastifier())
+                                                  IAStlInputRobustnessDenseTimeOnlineInterpreter(), pastifier=StlDenseTimePastifier())
     elif semantics == Semantics.INPUT_VACUITY and language == Language.PYTHON:
         spec = AbstractOfflineOnlineSpecification(StlAst(), IAStlInputVacuityDenseTimeOfflineInterpreter(),
-                                                  IAStlInputVacuityDenseTimeOnlineInterpreter(), pastifier=StlPastifier())
+                                                  IAStlInputVacuityDenseTimeOnlineInterpreter(), pastifier=StlDenseTimePastifier())
     elif semantics == Semantics.OUTPUT_VACUITY and language == Language.PYTHON:
         spec = AbstractOfflineOnlineSpecification(StlAst(), IAStlOutputVacuityDenseTimeOfflineInterpreter(),
-                                                  IAStlOutputVacuityDenseTimeOnlineInterpreter(), pastifier=StlPastifier())
+                                                  IAStlOutputVacuityDenseTimeOnlineInterpreter(), pastifier=StlDenseTimePastifier())
     else:
         raise Exception()
 
@@ -46,5 +46,5 @@ def StlDenseTimeOfflineSpecification():
     return spec
 
 def StlDenseTimeOnlineSpecification():
-    spec = AbstractOnlineSpecification(StlAst(), StlDenseTimeOnlineInterpreter(), pastifier=StlPastifier())
+    spec = AbstractOnlineSpecification(StlAst(), StlDenseTimeOnlineInterpreter(), pastifier=StlDenseTimePastifier())
     return spec
